@@ -10,10 +10,12 @@ args = [a for a in args if a != '--skeleton']
 for a in args:
     for t in ST.by_area()[a]:
         fx = {p: v[0] for p, v in t.fix.items()}
-        call = '%s %s' % (t.lean_name, ' '.join([x for x, _ in t.ambient] + (['fuel'] if t.fuel else []) +
+        st = [d.replace('.', '_') for d, _ in t.state]
+        call = '%s %s' % (t.lean_name, ' '.join(st + [x for x, _ in t.ambient] + (['fuel'] if t.fuel else []) +
                                                 [fx.get(p, py2lean.lean_ident(p)) for p, _ in t.params]))
         if skel:
-            binders = ['(%s : %s)' % (n, ty) for n, ty in t.ambient]
+            binders = ['(%s : %s)' % (d.replace('.', '_'), py2lean.lean_type(ty)) for d, ty in t.state]
+            binders += ['(%s : %s)' % (n, ty) for n, ty in t.ambient]
             if t.fuel:
                 binders.append('(fuel : Nat)')
             binders += ['(%s : %s)' % (py2lean.lean_ident(p), py2lean.lean_type(ty)) for p, ty in t.params if p not in fx]
